@@ -18,7 +18,8 @@ from utype.utils.encode import JSONEncoder   # noqa: E402
 ID = "C14"
 LEVEL = "model_checking"
 RULE = ("product space: one data class per (field type x container shape: scalar, List, Set, Tuple[..., ...], Dict[str, .], "
-        "Optional, nested data class, two-field class) x every boundary value of the type's list (ints to 2^53+-1 and 10^20, "
+        "Optional, nested data class, two-field class, and the two-level shapes Set[Tuple[., int]], List[Tuple[., str]], "
+        "Dict[str, List[.]], List[Set[.]], Dict[str, Inner], List[Inner], FrozenSet[.], Tuple[int, ., Optional[.]]) x every boundary value of the type's list (ints to 2^53+-1 and 10^20, "
         "floats incl. -0.0 / 5e-324 / 1e22, Decimals to 15 digits at exponents -7..7, strings with non-BMP and control "
         "characters, UTF-8 bytes, dates 0001..9999, datetimes naive / UTC / 6 offsets x 3 microsecond values, times to "
         "milliseconds, timedeltas incl. negative and microsecond ones, UUID, Enums, empty containers) x both base classes; "
@@ -65,7 +66,10 @@ TYPES = {
     "time": ("time", TIMES), "timedelta": ("timedelta", TIMEDELTAS), "UUID": ("UUID", UUIDS), "Color": ("Color", COLORS),
     "Num": ("Num", NUMS),
 }
-SHAPES = ["scalar", "optional", "list", "set", "tuple", "dict", "nested", "pair"]
+SHAPES = ["scalar", "optional", "list", "set", "tuple", "dict", "nested", "pair",
+          # containers of containers
+          "set-of-tuples", "list-of-tuples", "dict-of-lists", "list-of-sets", "dict-of-nested", "list-of-nested", "frozenset",
+          "tuple-fixed"]
 
 
 def bounds(tier):
@@ -79,9 +83,12 @@ def shards(tier):
 def source(base, t, shape):
     ann = TYPES[t][0]
     f = {"scalar": ann, "optional": f"Optional[{ann}]", "list": f"List[{ann}]", "set": f"Set[{ann}]",
-         "tuple": f"Tuple[{ann}, ...]", "dict": f"Dict[str, {ann}]", "nested": "Inner", "pair": ann}[shape]
+         "tuple": f"Tuple[{ann}, ...]", "dict": f"Dict[str, {ann}]", "nested": "Inner", "pair": ann,
+         "set-of-tuples": f"Set[Tuple[{ann}, int]]", "list-of-tuples": f"List[Tuple[{ann}, str]]",
+         "dict-of-lists": f"Dict[str, List[{ann}]]", "list-of-sets": f"List[Set[{ann}]]", "dict-of-nested": "Dict[str, Inner]",
+         "list-of-nested": "List[Inner]", "frozenset": f"typing.FrozenSet[{ann}]", "tuple-fixed": f"Tuple[int, {ann}, Optional[{ann}]]"}[shape]
     src = ""
-    if shape == "nested":
+    if "nested" in shape:
         src += f"class Inner({base}):\n    w: {ann}\n    n: int = 0\n"
     src += f"class S({base}):\n    v: {f}\n"
     if shape == "pair":
@@ -130,6 +137,52 @@ def instances(t, shape, tier):
     elif shape == "pair":
         for a, b in itertools.islice(itertools.product(vals, vals), 0, 60 if tier == "thorough" else 20):
             yield {"v": a, "u": b}
+    else:
+        n = len(vals) if tier == "thorough" else 6
+        pairs = list(itertools.islice(itertools.combinations(vals, 2), 0, 12 if tier == "thorough" else 4))
+        if shape == "set-of-tuples":
+            yield {"v": "set()"}
+            for v in vals[:n]:
+                yield {"v": "{(" + v + ", 1)}"}
+            for a, b in pairs:
+                yield {"v": "{(" + a + ", 1), (" + b + ", 2), (" + a + ", 3)}"}
+        elif shape == "list-of-tuples":
+            yield {"v": "[]"}
+            for v in vals[:n]:
+                yield {"v": "[(" + v + ", 'x')]"}
+            for a, b in pairs:
+                yield {"v": "[(" + a + ", 'x'), (" + b + ", ''), (" + a + ", 'x')]"}
+        elif shape == "dict-of-lists":
+            yield {"v": "{'k': []}"}
+            for v in vals[:n]:
+                yield {"v": "{'k': [" + v + "], '': []}"}
+            for a, b in pairs:
+                yield {"v": "{'k': [" + a + ", " + b + "], 'j': [" + b + "]}"}
+        elif shape == "list-of-sets":
+            yield {"v": "[set()]"}
+            for v in vals[:n]:
+                yield {"v": "[{" + v + "}, set()]"}
+            for a, b in pairs:
+                yield {"v": "[{" + a + ", " + b + "}, {" + a + "}]"}
+        elif shape == "dict-of-nested":
+            yield {"v": "{}"}
+            for v in vals[:n]:
+                yield {"v": "{'k': {'w': " + v + "}, '': {'w': " + v + ", 'n': 2}}"}
+        elif shape == "list-of-nested":
+            yield {"v": "[]"}
+            for v in vals[:n]:
+                yield {"v": "[{'w': " + v + "}, {'w': " + v + ", 'n': 2}]"}
+        elif shape == "frozenset":
+            yield {"v": "frozenset()"}
+            for v in vals[:n]:
+                yield {"v": "frozenset({" + v + "})"}
+            for a, b in pairs:
+                yield {"v": "frozenset({" + a + ", " + b + "})"}
+        elif shape == "tuple-fixed":
+            for v in vals[:n]:
+                yield {"v": "(1, " + v + ", None)"}
+            for a, b in pairs:
+                yield {"v": "(2, " + a + ", " + b + ")"}
 
 
 def _raise_constant(name):
